@@ -83,7 +83,7 @@ def interpolate(alpha: str, max_t: int, headers: list[list[str]], values: list[l
 KW = {"Context": "Given ", "Action": "When ", "Outcome": "Then ", "Conjunction": "And ", "Unknown": "* "}
 
 
-def types_ast(bg, sc, outline):
+def types_ast(bg, sc, outline, rb=()):
     loc = {"line": 1, "column": 1}
     step = lambda i, t: {"id": str(i), "location": loc, "keyword": KW[t], "keywordType": t, "text": "x"}  # noqa: E731
     row = lambda i, v: {"id": str(i), "location": loc, "cells": [{"location": loc, "value": v}]}  # noqa: E731
@@ -93,11 +93,17 @@ def types_ast(bg, sc, outline):
                       "steps": [step(len(bg) + i, t) for i, t in enumerate(sc)],
                       "examples": [{"id": "902", "location": loc, "tags": [], "keyword": "Examples", "name": "", "description": "", "tableHeader": row(903, "h"),
                                     "tableBody": [row(904, "1"), row(905, "2")]}] if outline else []}}
-    return {"uri": "u", "comments": [], "feature": {"location": loc, "tags": [], "language": "en", "keyword": "Feature", "name": "f", "description": "", "children": [b, s]}}
+    kids = [b, s]
+    if rb:
+        rbg = {"background": {"id": "910", "location": loc, "keyword": "Background", "name": "", "description": "", "steps": [step(200 + i, t) for i, t in enumerate(rb)]}}
+        kids = [b, {"rule": {"id": "911", "location": loc, "tags": [], "keyword": "Rule", "name": "", "description": "", "children": [rbg, s]}}]
+    return {"uri": "u", "comments": [], "feature": {"location": loc, "tags": [], "language": "en", "keyword": "Feature", "name": "f", "description": "", "children": kids}}
 
 
-def types_text(bg, sc, outline):
+def types_text(bg, sc, outline, rb=()):
     t = "Feature: f\n  Background:\n" + "".join(f"    {KW[k]}b{i}\n" for i, k in enumerate(bg))
+    if rb:
+        t += "  Rule: r\n    Background:\n" + "".join(f"    {KW[k]}r{i}\n" for i, k in enumerate(rb))
     t += ("  Scenario Outline: s\n" if outline else "  Scenario: s\n") + "".join(f"    {KW[k]}s{i}\n" for i, k in enumerate(sc))
     if outline:
         t += "    Examples:\n      | h |\n      | 1 |\n      | 2 |\n"
@@ -110,13 +116,13 @@ def _types_chunk(cases):
         for outline, key in ((False, "plain"), (True, "outline")):
             exp = list(c[key])
             try:
-                pk = Compiler().compile(types_ast(c["bg"], c["sc"], outline))
+                pk = Compiler().compile(types_ast(c["bg"], c["sc"], outline, c.get("rb", ())))
                 got = [s["type"] for s in pk[0]["steps"]]
                 if outline and [s["type"] for s in pk[1]["steps"]] != got:
                     got = ["second row differs"] + [s["type"] for s in pk[1]["steps"]]
                 via = "dict"
                 if got == exp and len(c["bg"]) <= 1 and len(c["sc"]) <= 3:
-                    d = Parser().parse(types_text(c["bg"], c["sc"], outline))
+                    d = Parser().parse(types_text(c["bg"], c["sc"], outline, c.get("rb", ())))
                     d["uri"] = "u"
                     pks = Compiler().compile(d)
                     got = [s["type"] for s in pks[0]["steps"]]
@@ -130,8 +136,8 @@ def _types_chunk(cases):
     return bad
 
 
-def types(max_bg: int, max_sc: int, tag="types"):
-    cfg = (f"SPECIFICATION Spec\nCONSTANT MaxBg = {max_bg}\nCONSTANT MaxSc = {max_sc}\nCONSTRAINT Emit\nCHECK_DEADLOCK FALSE\n"
+def types(max_bg: int, max_sc: int, tag="types", max_rb: int = 0):
+    cfg = (f"SPECIFICATION Spec\nCONSTANT MaxBg = {max_bg}\nCONSTANT MaxSc = {max_sc}\nCONSTANT MaxRuleBg = {max_rb}\nCONSTRAINT Emit\nCHECK_DEADLOCK FALSE\n"
            "INVARIANT Inv_Definite\nINVARIANT Inv_FromKeyword\nINVARIANT Inv_PlainEqualsOutline\nINVARIANT Inv_P_C10\n")
     from common import write_dialects
     with Scratch(tag) as sc:
@@ -154,5 +160,5 @@ if __name__ == "__main__":
     cases, bad, res = interpolate("<>a.\\$", 4, [["a"], ["."], ["a."], ["<a"], ["a>"], ["("], [""], ["a", "."]], [["x"], [""], ["<a>"], ["\\"], ["\\1"], ["$"], [".a"], [">"], ["<.>", "y"], ["<a>", "<.>"]])
     print("interp", len(cases), len(bad), res.distinct, res.invariant_violations, round(res.wall, 1), round(time.time() - t0, 1), bad[:2])
     t0 = time.time()
-    cases, bad, res = types(2, 3)
+    cases, bad, res = types(1, 2, max_rb=2)
     print("types", len(cases), len(bad), res.distinct, res.invariant_violations, round(res.wall, 1), round(time.time() - t0, 1), bad[:2])
